@@ -103,10 +103,13 @@ SERIES_OPS = {
 
 LINEAR_UNARY = {'diag', 'tril', 'triu', 'transpose', 'trace', 'conjugate', 'real', 'imag', 'fft', 'ifft',
                 'ravel', 'reshape', 'asarray', 'array', 'copy', 'negative', 'tile', 'nan_to_num', 'squeeze'}
-BILINEAR = {'dot', 'outer', 'multiply', 'kron', 'inner', 'tensordot'}
+BILINEAR = {'dot', 'outer', 'multiply', 'kron', 'inner', 'tensordot', 'matmul', 'vdot'}
 ADDITIVE = {'add', 'subtract'}
 META_FUNCS = {'shape', 'ndim', 'size', 'len', 'isscalar', 'result_type', 'promote_types', 'isinstance', 'type',
               'min_scalar_type', 'iscomplexobj', 'isrealobj', 'str', 'repr', 'print', 'may_share_memory', 'shares_memory'}
+NONLINEAR_FUNCS = {'exp', 'log', 'sqrt', 'sin', 'cos', 'tan', 'arcsin', 'arccos', 'arctan', 'sinh', 'cosh', 'tanh', 'expm1', 'log1p',
+                   'reciprocal', 'power', 'abs', 'absolute', 'sign', 'inv', 'cholesky', 'qr', 'eigh', 'eig', 'svd', 'lu', 'lu_factor',
+                   'erf', 'erfi', 'dawsn', 'gammaln', 'psi', 'polygamma', 'logit', 'expit', 'clip', 'maximum', 'minimum'}
 WEIGHT0_FUNCS = None   # any other library call requires weight-0 arguments and yields weight 0
 
 
@@ -454,6 +457,9 @@ class KernelAnalysis:
         names = {n.id for n in ast.walk(st.test) if isinstance(n, ast.Name)}
         if names & (self.dsyms | set(self.dderived)):
             self.guards_on_degree.append(st)
+        # control flow may depend on zeroth coefficients only: a branch on a higher-order coefficient makes the
+        # result depend on whether that coefficient happens to vanish (sparse inputs)
+        self._ctrl_check(st.test, st)
         # parity test under a parity split
         par = getattr(self, 'parity', None)
         tv = None
@@ -520,6 +526,43 @@ class KernelAnalysis:
         if isinstance(op, ast.LtE):
             return uid, None, c, c + 1, None
         return None
+
+    def _ctrl_check(self, test, st):
+        if isinstance(test, ast.BoolOp):
+            for v in test.values:
+                self._ctrl_check(v, st)
+            return
+        if isinstance(test, ast.UnaryOp) and isinstance(test.op, ast.Not):
+            return self._ctrl_check(test.operand, st)
+        if isinstance(test, ast.Compare) and all(isinstance(o, (ast.Is, ast.IsNot)) for o in test.ops):
+            return      # identity tests (`out is None`) read no data
+        if isinstance(test, ast.Call) and isinstance(test.func, ast.Name) and test.func.id in ('isinstance', 'hasattr', 'callable'):
+            return
+        if isinstance(test, (ast.Name, ast.Attribute)):
+            return      # truthiness of a flag / module (`if pytpcore`), not coefficient data
+        if not any(isinstance(n, ast.Subscript) or (isinstance(n, ast.Name) and (n.id in self.gvars or n.id in self.temps)) for n in ast.walk(test)):
+            return
+        n_iss = len(self.issues)
+        v = self.ev(test)
+        del self.issues[n_iss:]
+        rg = self._all_ranges([r.idx for r in v.reads])
+        for r in v.reads:
+            ga = self.gvars.get(r.arr)
+            if ga is None:
+                continue
+            w = ga.off + r.idx
+            self.obligations += 1
+            if prove_le(w, Aff.const(0), rg):
+                self.discharged += 1
+                continue
+            wit = find_witness(lambda val: w.eval(val) > 0, rg, ['#D']) if self._closed([w], rg) else None
+            if wit is not None or not w.is_const:
+                self.issue('CTRL', 'VIOLATION', st, 'control flow depends on a higher-order Taylor coefficient %s[%s] (weight %s): `%s` - the computed '
+                                                    'coefficients change when that coefficient happens to be zero' % (r.arr, r.idx, w, norm(test)[:80]), wit or {})
+            elif w.c > 0:
+                self.issue('CTRL', 'VIOLATION', st, 'control flow depends on a higher-order Taylor coefficient %s[%s]: `%s`' % (r.arr, r.idx, norm(test)[:80]), {})
+            else:
+                self.discharged += 1
 
     def _eq_refine(self, test):
         if isinstance(test, ast.Compare) and len(test.ops) == 1 and isinstance(test.ops[0], ast.Eq) \
@@ -929,6 +972,18 @@ class KernelAnalysis:
             return args[0]
         if name in META_FUNCS:
             return Val.scalar()
+        if name == 'einsum' and len(c.args) == 3 and isinstance(c.args[0], ast.Constant) and isinstance(c.args[0].value, str):
+            # 'iab,ibc->ac': the leading (coefficient) axis of both operands is paired and summed
+            spec = c.args[0].value.replace(' ', '')
+            if '->' in spec and spec.count(',') == 1:
+                ins, outp = spec.split('->')
+                a_, b_ = ins.split(',')
+                va, vb = self.ev(c.args[1]), self.ev(c.args[2])
+                if va.kind == 'fam' and vb.kind == 'fam' and a_ and b_ and a_[0] == b_[0] and a_[0] not in outp:
+                    return self.close_family(self.mul_vals(va, vb, c), c)
+                if va.kind != 'fam' and vb.kind != 'fam':
+                    return self.mul_vals(va, vb, c)
+            return Val.bot('einsum form not understood: ' + norm(c)[:60], self.ev(c.args[1]).reads + self.ev(c.args[2]).reads)
         if name == 'square' and args:
             return self.mul_vals(args[0], args[0], c)
         if name in BILINEAR and len(args) >= 2:
@@ -954,10 +1009,12 @@ class KernelAnalysis:
         bad = [a for a in args if not (a.kind == 'w' and (a.w == Aff.const(0) or a.w == ANY))]
         if any(a.kind == 'bot' for a in bad):
             return Val.bot(bad[0].why or 'argument not understood', reads)
-        self.obligations += 1
-        self.issue('O3', 'VIOLATION', c, 'non-linear function `%s` applied to a coefficient of non-zero weight (%s): '
-                                         'only functions of the zeroth coefficient are graded' % (d or norm(c.func), bad[0].w), {})
-        return Val.bot('nonlinear function of graded value', reads)
+        if name in NONLINEAR_FUNCS and bad[0].kind == 'w':
+            self.obligations += 1
+            self.issue('O3', 'VIOLATION', c, 'non-linear function `%s` applied to a coefficient of non-zero weight (%s): '
+                                             'only functions of the zeroth coefficient are graded' % (d or norm(c.func), bad[0].w), {})
+            return Val.bot('nonlinear function of graded value', reads)
+        return Val.bot('library function `%s` applied to graded coefficients is outside the recognised idioms' % (d or norm(c.func)), reads)
 
     def _graded_base(self, node):
         """x_data / x_data.transpose(..) / Q_data -> graded array name"""
@@ -1099,11 +1156,22 @@ class KernelAnalysis:
             self.alias_of = getattr(self, 'alias_of', {})
             self.alias_of[name] = value.id
             return
+        # Y_r = Y.reshape(...) / numpy.reshape(Y, ...): numpy returns a view only for suitably contiguous data
+        rb = None
+        if isinstance(value, ast.Call) and isinstance(value.func, ast.Attribute) and value.func.attr == 'reshape':
+            rb = self._graded_base(value.func.value)
+        elif isinstance(value, ast.Call) and (dotted_name(value.func) or '') == 'numpy.reshape' and value.args:
+            rb = self._graded_base(value.args[0])
+        if rb is not None:
+            self.reshape_alias = getattr(self, 'reshape_alias', {})
+            self.reshape_alias[name] = (rb, st)
         gv = self._graded_alloc(value)
         if gv is not None:
             off, length, zero = gv
             self._decl(name, 'local', off, length, zero_init=zero)
             self.temps.pop(name, None)
+            if isinstance(value, ast.Call) and (dotted_name(value.func) or '').split('.')[-1] in ('empty_like', 'zeros_like'):
+                self.like_alloc = getattr(self, 'like_alloc', set()) | {name}
             return
         v = self.ev(value)
         if v.kind == 'fam':
@@ -1196,6 +1264,14 @@ class KernelAnalysis:
         info = self.target_info(target)
         if info is None:
             return
+        if info[0] in ('graded', 'graded-whole') and info[1].name in getattr(self, 'reshape_alias', {}):
+            base, bst = self.reshape_alias[info[1].name]
+            gb = self.gvars.get(base)
+            if gb is not None and gb.role in ('in', 'out') or (gb is not None and not gb.zero_init and base in getattr(self, 'like_alloc', set())):
+                self.obligations += 1
+                self.issue('RESHAPE', 'VIOLATION', st, 'coefficients are stored through `%s`, a reshape of `%s`: numpy.reshape returns a copy for '
+                                                       'non-contiguous data (transposed / Fortran-ordered operands), so the results never reach `%s`'
+                           % (norm(bst)[:60], base, base), {})
         if info[0] == 'temp':
             name = info[1]
             full = self._is_full_subscript(target)
